@@ -157,6 +157,16 @@ func hashByName(n string) crypto.Hash {
 	return crypto.BLAKE2b_256
 }
 
+type slowFailLeaf struct {
+	idx   int
+	delay time.Duration
+}
+
+func (l *slowFailLeaf) MarshalBinary() ([]byte, error) {
+	time.Sleep(l.delay)
+	return nil, &leafErr{l.idx}
+}
+
 func nLeaves(n int) []encoding.BinaryMarshaler {
 	ls := make([]encoding.BinaryMarshaler, n)
 	for i := range ls {
@@ -346,6 +356,28 @@ func vRun(op string, in M) M {
 			}
 		})
 		return M{"ok": err == nil && p == "", "root": vInts(root), "bottomup": vInts(bu), "size": h.Size(), "intact": leavesIntact(ls, n), "panic": p}
+	case "merkle.BigErr":
+		// many leaves, several of them fail to marshal (each with its own error), the first of them slowly: however the
+		// implementation walks the leaves, the error of the first failing leaf in leaf order is the answer
+		n := vIntOf(in["n"])
+		h := hashByName(in["hash"].(string))
+		ls := nLeaves(n)
+		for k, i := range vIntList(in["fail"]) {
+			d := time.Duration(0)
+			if k == 0 {
+				d = 25 * time.Millisecond
+			}
+			ls[i] = &slowFailLeaf{idx: i, delay: d}
+		}
+		var root []byte
+		var err error
+		p := vCatch(func() { root, err = sharedHasher(h).Hash(ls) })
+		out := M{"ok": err == nil && p == "", "root": vInts(root), "err": -1, "panic": p}
+		var le *leafErr
+		if err != nil && errors.As(err, &le) {
+			out["err"] = le.idx
+		}
+		return out
 	case "merkle.Par": // Hashers created separately (one per goroutine, as an API with a constructor suggests) and used at the same time
 		h := hashByName(in["hash"].(string))
 		g := vIntOf(in["g"])
@@ -419,7 +451,7 @@ func vRun(op string, in M) M {
 	panic("unknown op " + op)
 }
 
-func init() { vWBNames["merkle.lp2"] = true; vNoRepeat["merkle.Big"] = true; vNoRepeat["merkle.Par"] = true }
+func init() { vWBNames["merkle.lp2"] = true; vNoRepeat["merkle.Big"] = true; vNoRepeat["merkle.BigErr"] = true; vNoRepeat["merkle.Par"] = true }
 
 func TestVerifDriver(t *testing.T) {
 	vMain(vRun, func(do func(string, M)) {
@@ -435,6 +467,16 @@ func TestVerifDriver(t *testing.T) {
 		}
 		for _, b := range []int{0, 1, 2, 3, 5, 64, 65, 300} {
 			do("merkle.Big", M{"n": b, "hash": []string{"sha256", "blake2b"}[b%2], "decoy": true})
+		}
+		// several failing leaves on both sides of the top split points of large trees
+		for _, b := range []int{2048, 4096, 5000, 8192, 12289} {
+			k := 1
+			for 2*k < b {
+				k *= 2
+			}
+			for _, fl := range [][]int{{k - 1, k}, {k/2 - 1, k, b - 1}, {0, b - 1}, {k/2 + k/4 - 1, k + (b-k)/2}} {
+				do("merkle.BigErr", M{"n": b, "hash": []string{"sha256", "blake2b"}[len(fl)%2], "fail": fl})
+			}
 		}
 		for _, hn := range []string{"sha256", "blake2b", "sha512"} {
 			do("merkle.Par", M{"hash": hn, "g": 8, "ms": 300})
